@@ -548,7 +548,7 @@ class MassBins:
 
             # Neutron Stars
 
-            NS_mask = (bins_MS.lower < 1.4) & (1.4 < bins_MS.upper)
+            NS_mask = (bins_MS.lower <= 1.4) & (1.4 < bins_MS.upper)
 
             nbin_NS = NS_mask.sum()  # Always = 1
 
